@@ -190,19 +190,60 @@ theorem content_lookup (l : Layout) (content : List (Nat × DbContent)) (hnd : (
       rw [lookupB_append_none _ _ _ (dbFiles_other l oid oid' d' fn (fun e => h e.symm))]
       exact ih hnd.2
 
-/-- **The encoded file tree is the tree the theorems talk about.** -/
-theorem treeOf_fsOf (c : Cluster) (hnd : (c.content.map (·.1)).Nodup) : TreeOf c (fsOf c) := by
+/-! ### without segments and tablespaces every heap is one file under `base/<db>/` -/
+
+theorem heapFiles_plain (ver oid : Nat) (d : DbContent) (h : Nat × List (List RowV)) (ht : ∀ r ∈ d.cls.live, r.tblspc = 0) :
+    heapFiles ver 0 oid d h = [(pathBase oid h.1, encRowPages (colsOfFilenode d h.1) h.2)] := by
+  have hp : heapPath ver oid d h.1 = pathBase oid h.1 := by
+    unfold heapPath
+    cases hf : relOfFilenode d.cls h.1 with
+    | none => rfl
+    | some r =>
+      unfold relOfFilenode at hf
+      simp only [ht r (mem_of_find?_eq_some hf), if_true]
+  simp only [heapFiles, chunksOf, if_true, numbered, map_cons, map_nil, segSuffix, append_nil, hp]
+
+theorem flatten_map_singleton {α β} (f : α → β) (g : α → List β) (l : List α) (h : ∀ x ∈ l, g x = [f x]) :
+    (l.map g).flatten = l.map f := by
+  induction l with
+  | nil => rfl
+  | cons x xs ih =>
+    simp only [map_cons, flatten_cons]
+    rw [h x (by simp), ih (fun y hy => h y (by simp [hy]))]
+    rfl
+
+theorem dbFilesPlaced_plain (ver : Nat) (l : Layout) (oid : Nat) (d : DbContent) (ht : ∀ r ∈ d.cls.live, r.tblspc = 0) :
+    dbFilesPlaced ver 0 l oid d = dbFiles l oid d := by
+  unfold dbFilesPlaced dbFiles
+  rw [flatten_map_singleton (fun (p : Nat × List (List RowV)) => (pathBase oid p.1, encRowPages (colsOfFilenode d p.1) p.2))
+    (heapFiles ver 0 oid d) d.heaps (fun h _ => heapFiles_plain ver oid d h ht)]
+
+theorem filesOf_plain (c : Cluster) (hp : c.Plain) :
+    filesOf c = [(strBytes "PG_VERSION", natBytes c.pgVersion ++ [10]),
+      (pathGlobal 1262, encHeapOf (pgDatabaseCols c.pgVersion) (dbVals c.pgVersion) c.dbs)] ++
+      (c.content.map fun (p : Nat × DbContent) => dbFiles c.layout p.1 p.2).flatten := by
+  unfold filesOf
+  congr 2
+  apply map_congr_left
+  intro p hpm
+  rw [hp.1]
+  exact dbFilesPlaced_plain c.pgVersion c.layout p.1 p.2 (hp.2 p hpm)
+
+/-- **The encoded file tree is the tree the theorems talk about** — for a cluster without segmented heaps and without
+tablespaces (`Cluster.Plain`; the open findings C01-SEG and C01-TBLSPC are about the others). -/
+theorem treeOf_fsOf (c : Cluster) (hnd : (c.content.map (·.1)).Nodup) (hp : c.Plain) : TreeOf c (fsOf c) := by
   have hbase : ∀ oid fn, fsOf c (basePath oid fn) =
       match c.content.lookup oid with
       | some d => (dbFiles c.layout oid d).lookup (pathBase oid fn)
       | none => none := by
     intro oid fn
-    unfold fsOf filesOf
-    rw [basePath_eq]
+    unfold fsOf
+    rw [filesOf_plain c hp, basePath_eq]
     simp only [cons_append, nil_append, lookup_cons, sb_pgversion_ne, sb_global_ne]
     exact content_lookup c.layout c.content hnd oid fn
   refine ⟨?_, ?_, ?_, ?_, ?_⟩
-  · unfold fsOf filesOf
+  · unfold fsOf
+    rw [filesOf_plain c hp]
     simp only [cons_append, nil_append, lookup_cons, global_ne_version, pathGlobal_1262, beq_self_eq_true]
   · intro oid d hl
     rw [hbase, hl]
